@@ -1164,3 +1164,93 @@ def _json_equal(a, b):
     if isinstance(a, dict) and isinstance(b, dict):
         return set(a) == set(b) and all(_json_equal(a[k], b[k]) for k in a)
     return type(a) is type(b) and a == b
+
+
+# ------------------------------------------------------------------------------------------------ statement accounting of the expression helpers in data.py
+class CountingDataInterp(DataInterp):
+    """evaluate_expression is an oracle that behaves like a script callback: it counts one statement on the options object it is given, records that object,
+    and raises the statement-limit error on the configured call"""
+
+    def __init__(self, repo, mod, rule='E6l'):
+        super().__init__(repo, mod, rule)
+        self.seen_options = []
+        self.fail_at = None
+        self.oracles['evaluate_expression'] = self._count_eval
+
+    def _count_eval(self, args, node):
+        self.n_eval += 1
+        opts = args[1] if len(args) > 1 else None
+        self.seen_options.append(opts)
+        if isinstance(opts, ADict):
+            opts.d['statementCount'] = opts.d.get('statementCount', 0) + 1
+        if self.fail_at is not None and self.n_eval == self.fail_at:
+            raise RaiseSig('BareScriptRuntimeError', ('Exceeded maximum script statements',), node)
+        e = args[0]
+        if isinstance(e, Sym) and e.kind == 'expr' and len(args) > 2 and isinstance(args[2], ADict):
+            return args[2].d.get(e.args[0], True)
+        return True
+
+
+def run_data_accounting(repo, rule='E6l'):
+    """filter_data / add_calculated_field / join_data with and without a variables object, completing and aborted by the statement limit:
+    the run's options object must afterwards carry start + (number of expression evaluations) -> (n, problems [(function, message)])"""
+    mod = repo.module('data')
+    problems, n = [], 0
+    rows = [{'a': 1.0, 'b': 2.0}, {'a': 2.0, 'b': 3.0}, {'a': 1.0, 'b': 4.0}]
+    calls = {
+        'filter_data': lambda data, variables, options: [data, 'a', variables, options],
+        'add_calculated_field': lambda data, variables, options: [data, 'c', 'b', variables, options],
+        'join_data': lambda data, variables, options: [data, _abs([{'a': 1.0, 'z': 9.0}, {'a': 2.0, 'z': 8.0}]), 'a', None, False, variables, options],
+    }
+    for fname, mk in calls.items():
+        func = mod.funcs.get(fname)
+        if func is None:
+            raise Unrecognised(rule, f'data.{fname} not found', mod.rel)
+        params = [a.arg for a in func.args.args]
+        if 'options' not in params or 'variables' not in params:
+            raise Unrecognised(rule, f'data.{fname} has no variables / options parameters', mod.rel)
+        for variables in (None, {'v': 1.0}):
+            for fail_at in (None, 1, 2):
+                for has_globals in (True, False):
+                    n += 1
+                    it = CountingDataInterp(repo, mod, rule)
+                    it.fail_at = fail_at
+                    G = ADict({'g': 0.0})
+                    options = ADict(dict({'statementCount': 5, 'maxStatements': 100}, **({'globals': G} if has_globals else {})))
+                    args = mk(_abs(rows), _abs(variables) if variables is not None else None, options)
+                    # bind positionally in the order of the function's parameters (keyword-free call of the documented signature)
+                    got = it.run(func, args)
+                    desc = f'{fname}(... variables={"{v: 1}" if variables else "null"}, options{" with globals" if has_globals else ""})' + \
+                        (f', the statement limit hit on evaluation {fail_at}' if fail_at else '')
+                    if fail_at and not (got[0] == 'raise' and got[1] == 'BareScriptRuntimeError'):
+                        problems.append((fname, f'{desc}: the statement-limit error does not leave the function (outcome {got[:2]!r}): the run continues beyond the limit'))
+                        continue
+                    if not fail_at and got[0] == 'raise':
+                        problems.append((fname, f'{desc} raises {got[1]}'))
+                        continue
+                    want = 5 + it.n_eval
+                    if options.d.get('statementCount') != want:
+                        problems.append((fname, f'{desc}: the run\'s options carry statementCount {options.d.get("statementCount")!r} afterwards; 5 before the call + {it.n_eval} expression '
+                                                f'evaluations = {want} (statements executed inside data expressions are not counted against the limit)'))
+                        continue
+                    for o in it.seen_options:
+                        if not isinstance(o, ADict):
+                            problems.append((fname, f'{desc}: an expression is evaluated with options {o!r}'))
+                            break
+                        if o is not options:
+                            if variables is None:
+                                problems.append((fname, f'{desc}: an expression is evaluated with another options object although no variables were given'))
+                                break
+                            if o.d.get('maxStatements') != 100:
+                                problems.append((fname, f'{desc}: the options copy for the expressions loses maxStatements'))
+                                break
+                            g = o.d.get('globals')
+                            if not isinstance(g, ADict) or g.d.get('v') != 1.0 or (has_globals and g.d.get('g') != 0.0):
+                                problems.append((fname, f'{desc}: the expressions do not see the variables merged over the globals ({g!r})'))
+                                break
+                        elif variables is not None:
+                            problems.append((fname, f'{desc}: the variables are not visible to the expressions (evaluated with the run\'s own options)'))
+                            break
+                    if has_globals and (G.d != {'g': 0.0} or options.d.get('globals') is not G):
+                        problems.append((fname, f'{desc}: the run\'s globals object is modified / replaced ({options.d.get("globals")!r})'))
+    return n, problems
